@@ -173,6 +173,10 @@ theorem vm_run_error_at_rest (fuel : Nat) (s s' : St) (h : (run fuel).run s = (.
   have hz := run_error_sized fuel s s' h
   exact ⟨hz.data, hz.linear, hz.addr, hz.curfunc, hz.pcEnd, run_error_susp fuel s s' h⟩
 
+/-- `Run`, whatever its outcome, leaves the loop-record stack as it was -/
+theorem vm_run_loopstack (fuel : Nat) (s : St) : ((run fuel).run s).2.loopstack = s.loopstack :=
+  run_loopstack fuel s
+
 /-- the same for the loop itself, for any captured control state `st` -/
 theorem vm_runLoop_error_at_rest (fuel : Nat) (st : CtlState) (s s' : St)
     (h : (runLoop fuel st).run s = (.error .err, s')) :
@@ -184,9 +188,8 @@ theorem vm_runLoop_error_at_rest (fuel : Nat) (st : CtlState) (s s' : St)
 /-- **vm_text_error_at_rest** — top level: an interpreter at rest that is given a text which
 fails — at compile time (`cerr`) or anywhere during its execution (`err`) — is at rest
 afterwards: data stack empty, ONE scope, address stack empty, `curfunc = mainfunc`, pc behind
-the code of `mainfunc`; and it is usable (`alive`). Depths `0,1,0` in the harness vocabulary
-(`d` is `depths s'`; its fourth component, the loop-record stack, is the generator's and is
-not touched by the VM). -/
+the code of `mainfunc`; and it is usable (`alive`). Depths `0,1,0,0` in the harness vocabulary:
+`vm_text_error_depths` below. -/
 theorem vm_text_error_at_rest (fuel : Nat) (es : List Expr) (s s' : St) (cls v d : String) (tr : List String)
     (alive : Bool) (h : AtRest s) (hr : runText fuel es s = (.done cls v tr d, s', alive))
     (hcls : cls = "err" ∨ cls = "cerr") :
@@ -194,6 +197,25 @@ theorem vm_text_error_at_rest (fuel : Nat) (es : List Expr) (s s' : St) (cls v d
     alive = true ∧ d = depths s' := by
   obtain ⟨hz, ha, hd⟩ := runText_error_sized fuel es s s' cls v d tr alive h hr hcls
   exact ⟨hz.data, hz.linear, hz.addr, hz.curfunc, hz.pcEnd, ha, hd⟩
+
+/-- **vm_text_error_depths** — in the harness vocabulary: after a failing text the four depths
+(data, scope, address, loop-record stack) are `0,1,0,0`. The fourth is the generator's: the VM
+never touches it and every successful compilation — at load time and at run time, for operands
+and lazy arguments — hands it back as it was (`genLS_compile`, all eight `compile…` functions;
+`allKeeps`, all 13 VM functions). -/
+theorem vm_text_error_depths (fuel : Nat) (es : List Expr) (s s' : St) (cls v d : String) (tr : List String)
+    (alive : Bool) (h : AtRest s) (hr : runText fuel es s = (.done cls v tr d, s', alive))
+    (hcls : cls = "err" ∨ cls = "cerr") : d = "0,1,0,0" ∧ s'.loopstack = [] := by
+  obtain ⟨hd, hl, ha, _, _, _, hdep⟩ := vm_text_error_at_rest fuel es s s' cls v d tr alive h hr hcls
+  have hls : s'.loopstack = [] := by
+    have := runText_loopstack fuel es s
+    rw [hr] at this
+    exact this.trans h.2.2.2.1
+  exact ⟨hdep.trans (depths_rest s' hd hl ha hls), hls⟩
+
+/-- the loop-record stack survives every text, whatever its outcome -/
+theorem vm_text_loopstack (fuel : Nat) (es : List Expr) (s : St) : (runText fuel es s).2.1.loopstack = s.loopstack :=
+  runText_loopstack fuel es s
 
 /-- a compile error runs nothing: the state is the state before (trace cleared) -/
 theorem vm_text_compile_error_runs_nothing (fuel : Nat) (es : List Expr) (s s' : St) (v d : String)
